@@ -38,6 +38,8 @@ type csvRow struct {
 	Day  time.Time     `format:"2006-01-02"`
 	Dmy  time.Time     `format:"02/01/2006"`
 	Ydm  time.Time     `format:"2006-02-01" header:"ydm"`
+	Ymd1 time.Time     `format:"2006-1-2"`    // layouts whose text can be longer than the layout itself
+	Mdy  time.Time     `format:"Jan 2, 2006"` // (two-digit days and months; a comma inside the cell)
 	Seen time.Time     // no format tag although the fields before it have one: the default layout, with the time of day
 	Dur  time.Duration // integer kinds whose types have a String method: the cell is the number
 	Wd   time.Weekday
@@ -101,6 +103,8 @@ func genCsvRow(rng *rand.Rand) *csvRow {
 		Day:  time.Date(2000+rng.Intn(60), time.Month(1+rng.Intn(12)), 1+rng.Intn(28), 0, 0, 0, 0, time.UTC),
 		Dmy:  time.Date(1990+rng.Intn(60), time.Month(1+rng.Intn(12)), 1+rng.Intn(28), 0, 0, 0, 0, time.UTC),
 		Ydm:  time.Date(1990+rng.Intn(60), time.Month(1+rng.Intn(12)), 1+rng.Intn(28), 0, 0, 0, 0, time.UTC),
+		Ymd1: time.Date(1990+rng.Intn(60), time.Month(1+rng.Intn(12)), 1+rng.Intn(28), 0, 0, 0, 0, time.UTC),
+		Mdy:  time.Date(1990+rng.Intn(60), time.Month(1+rng.Intn(12)), 1+rng.Intn(28), 0, 0, 0, 0, time.UTC),
 		Seen: time.Date(1990+rng.Intn(60), time.Month(1+rng.Intn(12)), 1+rng.Intn(28), rng.Intn(24), rng.Intn(60), rng.Intn(60), 0, time.UTC),
 		Dur:  time.Duration(rng.Int63n(1e12)) - 5e11,
 		Wd:   time.Weekday(rng.Intn(7)),
@@ -119,6 +123,7 @@ func genCsvRow(rng *rand.Rand) *csvRow {
 		// local time): the cell shows what the value reads in its own zone
 		z := time.FixedZone("", []int{9, -5, 13, -11}[rng.Intn(4)]*3600)
 		r.When, r.Day, r.Dmy, r.Ydm, r.Seen = zoned(r.When, z), zoned(r.Day, z), zoned(r.Dmy, z), zoned(r.Ydm, z), zoned(r.Seen, z)
+		r.Ymd1, r.Mdy = zoned(r.Ymd1, z), zoned(r.Mdy, z)
 	}
 	if rng.Intn(4) == 0 {
 		r.U64 = math.MaxUint64
